@@ -24,6 +24,9 @@ type FaultStore struct {
 	Points bool
 	// Choice: if true, every call asks the explorer (vsched.Choose) whether to fail (deviation cost 1).
 	Choice bool
+	// OnCall, if set, is told the ordinal (counted from Base) of every call before it is made.
+	OnCall func(n int)
+	Base   int
 }
 
 func NewFaultStore(inner store.Store) *FaultStore { return &FaultStore{Inner: inner, FailAt: -1} }
@@ -33,6 +36,9 @@ func (f *FaultStore) hit(name string) bool {
 		vsched.Yield("store:" + name)
 	}
 	i := f.N
+	if f.OnCall != nil {
+		f.OnCall(i - f.Base)
+	}
 	f.N++
 	f.Log = append(f.Log, name)
 	if i == f.FailAt {
